@@ -17,6 +17,7 @@ import (
 // lexicon gives each token concrete text and the values the parser must report.
 
 type printCase struct {
+	raw   string
 	Mode  string     `json:"mode"`
 	Lines []absLine  `json:"lines"`
 	Calls []specCall `json:"calls"`
@@ -287,6 +288,7 @@ func init() {
 				if err := json.Unmarshal(js, &pc); err != nil {
 					return err
 				}
+				pc.raw = string(js)
 				cases = append(cases, pc)
 			}
 			return nil
@@ -294,6 +296,7 @@ func init() {
 		if err != nil {
 			return err
 		}
+		sortByKey(len(cases), func(i int) string { return cases[i].raw }, func(i, j int) { cases[i], cases[j] = cases[j], cases[i] })
 		if len(cases) == 0 {
 			res.infra("no cases in %s", *c.in)
 			return res.write(*c.out)
